@@ -44,6 +44,8 @@ def check(ctx):
     in_loops = {id(g) for L in m.loops for g in L.gets}
     stray = [g for g in m.channel_gets if id(g) not in in_loops]
     ctx.check(not stray, "R11.1", pf.where(), "every read of the result queue is inside a recognised collection loop", key_of(pf, "stray-get"), found=[norm(s) for s in stray])
+    if not m.pqueues and any(isinstance(c, ast.Call) and ((isinstance(c.func, ast.Attribute) and c.func.attr == "sort") or (isinstance(c.func, ast.Name) and c.func.id == "sorted")) for c in walk_own(pf.node)):
+        raise AnalysisError("R11.2", pf.where(), "the parent keeps no PriorityQueue but sorts a collection: the input order may be re-established another way, which these rules do not read")
     for L in m.loops:
         r11_1(ctx, m, L)
         r11_4_loop(ctx, m, L)
